@@ -86,6 +86,7 @@ StructuralClauses(e) ==
      /\ Chk("NoCellAssignedTwice", Len(e.cells) = Cardinality(Pairs(e.cells)))
      /\ Chk("MacroExpressionsParenthesised", e.unparenthesised = 0)
      /\ Chk("BatchStrideIsSystemSize", e.strides_ok)
+     /\ Chk("BatchedMatrixGetsItsStructure", e.structure_uploaded)   \* every block-CSR matrix the solver class creates (Init, Reset) is handed to InitJac
      /\ Chk("MacroNSPECIES", e.nspecies = N.n)
      /\ Chk("MacroNEQUATIONS", e.neq = NEq(N))
      /\ Chk("MacroNREACTIONS", e.nreac = Max2(Len(N.R), 1))
